@@ -217,7 +217,10 @@ def run_case(case):
     g = gevent.spawn(run)
     order = list(case.get('release', []))
     released_last_slow = False
-    for step in range(20):
+    realtime = case['edge'] == 'wsgi-http'
+    for step in range(3000 if realtime else 20):
+        if realtime:
+            gevent.sleep(0.001)
         gevent.idle()
         if g.dead and not gates:
             break
